@@ -676,7 +676,7 @@ def select__subsequence(self: XPathFunction, context: ta.ContextType = None) \
     if self.context is not None:
         context = self.context
 
-    starting_loc = self.get_argument(context, 1, cls=NumericProxy)
+    starting_loc = self.get_argument(context, 1, required=True, cls=NumericProxy)
     if not isinstance(starting_loc, float) or math.isfinite(starting_loc):
         starting_loc = int(round_number(starting_loc))
 
@@ -685,7 +685,7 @@ def select__subsequence(self: XPathFunction, context: ta.ContextType = None) \
             if starting_loc <= pos:
                 yield result
     else:
-        length = self.get_argument(context, 2, cls=NumericProxy)
+        length = self.get_argument(context, 2, required=True, cls=NumericProxy)
         if not isinstance(length, float) or math.isfinite(length):
             length = int(round_number(length))
 
